@@ -155,6 +155,7 @@ _n = [0]
 
 
 def run_case(case):
+    global _bptk
     driver, start, stop, dt, pop, collect, script = case
     viol = []
     if driver in ("run-ctor", "run-specs"):
@@ -204,8 +205,51 @@ def run_case(case):
             got, wantf = m.clog, want
         if not same(got, wantf):
             viol.append(("sequence/steps", first_diff(got, wantf)))
+        elif not collect:
+            # with data collection off nothing is recorded - except, at most, at the model's final time
+            final_t = stop + (spr - 1) * dt
+            extra = [x for x in m.clog if x[0] == "stat" and not core.close(x[1], final_t)]
+            if extra:
+                viol.append(("statistics-recorded-although-switched-off/steps", "records at %r (final time %r)" % ([x[1] for x in extra][:6], final_t)))
+            for call in ("positional",):
+                m2 = mk_model(0, stop, dt, pop, "specs", script)
+                for s_ in steps:
+                    m2.run_step(s_, False, False)
+                extra = [x for x in m2.clog if x[0] == "stat" and not core.close(x[1], final_t)]
+                if extra:
+                    viol.append(("statistics-recorded-although-switched-off/steps-positional", "records at %r" % ([x[1] for x in extra][:6],)))
+    elif driver == "hybrid-many":
+        # one run_scenarios call for `start` scenarios of one manager (size ladder): every one of them executes every step
+        nsc = start
+        if _bptk is None:
+            _bptk = core.new_bptk()
+        b = _bptk
+        _n[0] += 1
+        sm = "hm%d" % _n[0]
+        base = LogModel(name="c12", scheduler=SimultaneousScheduler(), data_collector=LogCollector())
+        base.clog = []
+        agents = [{"name": "a", "count": 2, "properties": {"kind": {"type": "String", "value": "a"}}}]
+        names = ["sc%02d" % i for i in range(nsc)]
+        try:
+            b.register_scenario_manager({sm: {"type": "abm", "model": base, "scenarios": {
+                nm: {"runspecs": {"starttime": 0, "stoptime": stop, "dt": dt}, "properties": {}, "agents": agents} for nm in names}}})
+            for nm in names:
+                sc = b.get_scenario(sm, nm)
+                sc.data_collector = LogCollector()
+                sc.data_collector.model_ref = sc
+                sc.clog = []
+            b.run_scenarios(scenarios=list(names), scenario_managers=[sm], agents=["a"], agent_states=["active"], return_format="df")
+            want = expected(0, stop, dt, ["a", "a"], True, None)
+            for nm in names:
+                sc = b.get_scenario(sm, nm)
+                if not same(sc.clog, want):
+                    viol.append(("sequence/hybrid-many/%d-scenarios" % nsc, "scenario %s: %s" % (nm, first_diff(sc.clog, want))))
+                    break
+        except Exception as e:
+            viol.append(("hybrid-raises/%s" % type(e).__name__, repr(e)[:300]))
+        finally:
+            b.scenario_manager_factory.scenario_managers.pop(sm, None)
     elif driver == "hybrid":
-        global _bptk
         if _bptk is None:
             _bptk = core.new_bptk()
         b = _bptk
@@ -295,6 +339,9 @@ def cases(tier):
                     for actor in sorted(set([0, len(pop) - 1])):
                         for collect in (True, False):
                             out.append(("rerun-after-error", start, stop, dt, pop, collect, {"when": list(when), "where": "act-raise", "actor": actor}))
+    # many scenarios in one call (the driver's "start" slot holds the number of scenarios)
+    for nsc in (2, 5, 9, 11, 17, 24):
+        out.append(("hybrid-many", nsc, 1, 0.5, ["a", "a"], True, None))
     # every dt = 1/n
     for n in range(1, 129 if tier == "quick" else 257):
         out.append(("run-specs", 0, 1, 1.0 / n, ["a"], True, None))
